@@ -201,7 +201,9 @@ pub fn campaign(seed: u64, count: u64, max_ops: u64, cfg: &PhysCfg, ops_path: &s
         let mut real = Real::new();
         let mut model = RefModel::new();
         let mut open: BTreeMap<u32, String> = BTreeMap::new();
-        let mut pending: Vec<String> = vec![format!("create {}", version)];
+        // one history in three on an underlying file that splits transfers (short counts, Interrupted):
+        // the bytes must still be the model's
+        let mut pending: Vec<String> = vec![match h % 6 { 1 => format!("create {} - short", version), 4 => format!("create {} - intr", version), _ => format!("create {}", version) }];
         if cfg.mini_churn {
             let per = if version == "3" { 128usize } else { 1024 };
             // enough small streams for 2-3 MiniFAT sectors (a stream of 4000 B = 63 mini sectors)
